@@ -2,8 +2,8 @@
 (* Trace validation for C03.  One behaviour per journal:
 
      {"e":"load", cfg, jsb, nr, fs0, log, hist}          the abstract journal that gen/jbd2write.py encoded into the image
-     {"e":"recover", obs:[fe1, fe2, fe3], jstart:[..], nro:[..], stray:[..]}
-                                                         target-block versions, journal s_start and needs_recovery read
+     {"e":"recover", obs:[fe1, fe2, fe3], jstart:[..], jseq:[..], nro:[..], stray:[..]}
+                                                         target-block versions, journal s_start / s_sequence and needs_recovery read
                                                          back from the image after each front-end
                                                          (e2fsck -y -E journal_only, e2fsck -fy, debugfs -w -R jr)
 
@@ -14,11 +14,29 @@
    and the flag is clear.  The property itself (ReplayExactOrDev: observed blocks = Final computed by TLC from the
    history, unless a named deviation was taken) is an INVARIANT of the trace cfg.
 
+   Second life of the log (Jbd2Gen), one further behaviour per continued journal:
+
+     {"e":"load", ...}                                    the same first-life journal
+     {"e":"replayed", fe, obs, jsb:{start,seq}, nro}      the image front-end `fe` left: the state is set to the OBSERVED
+                                                         post-state (no claim here: the claims about the first replay are made
+                                                         by the first behaviour); res = what the spec says about that replay
+     {"e":"restart", skew, jsb, nr, fs0, log, hist}      the generator continued on that image from the journal superblock it
+                                                         found there: first tid = observed s_sequence + skew, log restarted at
+                                                         ring position 1, old blocks left in place, some target blocks rewritten
+     {"e":"recover", ...}                                 the second replay, by all three front-ends
+
+   TRestart is Jbd2Gen!Restart followed by the generator's writes, bound to the logged ring: every position that the new
+   history did not write must still hold the block of the first life.  Whether the journal may be continued at all
+   (RestartableOf: first recovery succeeded without deviation, sequential ring) is decided here, from the spec's own
+   result of the first replay, never from what was observed: when it is not, the two lines are skipped (TSkipRestart, TSkipRecover).
+   The second recover line is checked like the first: Recover on the ring of both lives must give the observed blocks,
+   and ReplayExactOrDev compares them with Final of the SECOND life's history.
+
    Besides acceptance, TLC writes <TRACE>.out: per load line the property-level Final, the model's result, the
    deviations taken and the stop reason (used for the known-finding routing, stratification counts, evidence). *)
-EXTENDS Jbd2, Json, IOUtils
+EXTENDS Jbd2Gen, Json, IOUtils
 VARIABLES l
-tvars == <<vars, l>>
+tvars == <<gvars, l>>
 Tr == ndJsonDeserialize(IOEnv.TRACE)
 
 IsEvent(e) == l <= Len(Tr) /\ Tr[l].e = e /\ l' = l + 1
@@ -29,19 +47,44 @@ TLoad == /\ IsEvent("load")
          /\ log' = Tr[l].log /\ jsb' = [start |-> Tr[l].jsb.start, seq |-> Tr[l].jsb.seq]
          /\ nr' = Tr[l].nr /\ fs' = Tr[l].fs0 /\ hist' = Tr[l].hist
          /\ phase' = "dmg" /\ res' = NoRes
-         /\ head' = 1 /\ nseq' = 0 /\ ver' = 0 /\ ndmg' = 0
+         /\ head' = 1 /\ nseq' = 0 /\ ver' = 0 /\ ndmg' = 0 /\ gen' = 1 /\ tid0' = 1 /\ nover' = 0
          /\ Len(Tr[l].log) = Tr[l].cfg.L /\ Tr[l].jsb.start \in 0..Tr[l].cfg.L
 
-TRecover == /\ IsEvent("recover")
-            /\ Recover
+TRecover == /\ IsEvent("recover") /\ phase = "dmg"
+            /\ Recover /\ UNCHANGED <<gen, tid0, nover>>
             /\ \A i \in 1..Len(Tr[l].obs) :
                  /\ Tr[l].obs[i] = fs'                      \* every front-end = transcription of recovery.c; hence all agree
-                 /\ Tr[l].jstart[i] = jsb'.start            \* journal empty
+                 /\ Tr[l].jstart[i] = jsb'.start            \* journal empty:
+                 /\ Tr[l].jseq[i] = jsb'.seq                \*   s_start = 0 and the sequence number of *_journal_release after a
+                                                           \*   recovery with this outcome (= JsbAfter unless a deviation was taken)
                  /\ Tr[l].nro[i] = nr'                      \* no longer requests recovery
                  /\ Tr[l].stray[i] = 0                     \* no block outside targets / journal / fs metadata was written
 
-TraceInit == /\ Init /\ l = 1
-TraceNext == TLoad \/ TRecover
+\* ---- second life
+JsbOf(x) == [start |-> x.jsb.start, seq |-> x.jsb.seq]
+TReplayed == /\ IsEvent("replayed") /\ phase = "dmg" /\ nr = 1
+             /\ fs' = Tr[l].obs /\ jsb' = JsbOf(Tr[l]) /\ nr' = Tr[l].nro
+             /\ res' = [err |-> Rec.err, end |-> Rec.end, devs |-> Rec.devs, reason |-> Rec.reason, final |-> Final, jsbafter |-> JsbAfter]
+             /\ phase' = "replayed"
+             /\ UNCHANGED <<jc, log, head, nseq, hist, ver, ndmg, gen, tid0, nover>>
+WrittenBy(h) == UNION {{AdvL(jc.L, h[k].at, i - 1) : i \in 1..h[k].wr} : k \in 1..Len(h)}
+TRestart == /\ IsEvent("restart") /\ phase = "replayed"
+            /\ RestartableOf(res, log, jsb, nr)
+            /\ LET x == Tr[l] IN
+                 /\ x.skew \in {0, 1} /\ x.jsb.seq = jsb.seq + x.skew          \* continues from the superblock found on the image
+                 /\ x.jsb.start = 1 /\ Len(x.hist) > 0 /\ x.hist[1].at = 1     \* the log restarts at s_first
+                 /\ Len(x.log) = jc.L /\ Len(x.fs0) = Len(fs)
+                 /\ \A p \in 1..jc.L : p \notin WrittenBy(x.hist) => x.log[p] = log[p]      \* the first life's blocks stay in the ring
+                 /\ log' = x.log /\ hist' = x.hist /\ jsb' = JsbOf(x) /\ nr' = x.nr /\ fs' = x.fs0
+            /\ gen' = gen + 1 /\ tid0' = Tr[l].jsb.seq /\ nover' = 0 /\ phase' = "dmg" /\ res' = NoRes
+            /\ UNCHANGED <<jc, head, nseq, ver, ndmg>>
+TSkipRestart == /\ IsEvent("restart") /\ phase = "replayed" /\ ~RestartableOf(res, log, jsb, nr)
+                /\ phase' = "skip" /\ UNCHANGED <<jc, log, head, nseq, jsb, nr, fs, hist, ver, ndmg, res, gen, tid0, nover>>
+TSkipRecover == /\ IsEvent("recover") /\ phase = "skip"
+                /\ phase' = "skipped" /\ UNCHANGED <<jc, log, head, nseq, jsb, nr, fs, hist, ver, ndmg, res, gen, tid0, nover>>
+
+TraceInit == /\ GInit /\ l = 1
+TraceNext == TLoad \/ TRecover \/ TReplayed \/ TRestart \/ TSkipRestart \/ TSkipRecover
 TraceSpec == TraceInit /\ [][TraceNext]_tvars
 TraceAccepted == TLCGet("stats").diameter - 1 = Len(Tr)
 
@@ -52,13 +95,23 @@ TraceSound == (phase = "dmg") => GroundTruthSound
 SetToSeq2(S) == IF S = {} THEN <<>> ELSE
    LET names == <<"AsyncLastBadCommit", "CommitBreakContinues", "ReplayPastBadTag", "ScanAbort">> IN
    SelectSeq(names, LAMBDA n : n \in S)
-OutLine(x) ==
-   IF x.e # "load" THEN [e |-> x.e]
-   ELSE LET cf == CfgOf(x)
-            j  == [start |-> x.jsb.start, seq |-> x.jsb.seq]
-            r  == RecoverOf(cf, x.log, j, x.fs0)
-            f  == FinalOf(x.fs0, x.hist, j, DOMAIN x.fs0)
-        IN [e |-> "load", final |-> f, model |-> r.fs, err |-> r.err, devs |-> SetToSeq2(r.devs), reason |-> r.reason,
-            end |-> r.end, failed |-> r.failed, nvalid |-> Len(ValidPrefix(x.hist))]
-ASSUME ndJsonSerialize(IOEnv.TRACE \o ".out", [n \in 1..Len(Tr) |-> OutLine(Tr[n])])
+OutOf(cf, x) ==
+   LET j  == [start |-> x.jsb.start, seq |-> x.jsb.seq]
+       r  == RecoverOf(cf, x.log, j, x.fs0)
+       f  == FinalOf(x.fs0, x.hist, j, DOMAIN x.fs0)
+       a  == JsbAfterOf(x.hist, j)
+   IN [final |-> f, model |-> r.fs, err |-> r.err, devs |-> SetToSeq2(r.devs), reason |-> r.reason,
+       end |-> r.end, failed |-> r.failed, nvalid |-> Len(ValidPrefix(x.hist)), seqafter |-> a.seq,
+       seqmodel |-> IF r.err = "" THEN r.end + 1 ELSE j.seq,
+       ringdead |-> IF \A t \in RingTids(x.log) : t < a.seq THEN 1 ELSE 0]
+OutLine(n) ==
+   LET x == Tr[n] IN
+   IF x.e = "restart" THEN                      \* the load line of the same behaviour is two lines up
+        LET ld == Tr[n - 2]  cf == CfgOf(ld)  o1 == OutOf(cf, ld)  o2 == OutOf(cf, x)
+        IN [e |-> "restart", restartable |-> IF o1.err = "" /\ o1.devs = <<>> /\ o1.ringdead = 1 THEN 1 ELSE 0,
+            final |-> o2.final, model |-> o2.model, err |-> o2.err, devs |-> o2.devs, reason |-> o2.reason, end |-> o2.end,
+            nvalid |-> o2.nvalid, seqafter |-> o2.seqafter, seqmodel |-> o2.seqmodel]
+   ELSE IF x.e # "load" THEN [e |-> x.e]
+   ELSE [e |-> "load"] @@ OutOf(CfgOf(x), x)
+ASSUME ndJsonSerialize(IOEnv.TRACE \o ".out", [n \in 1..Len(Tr) |-> OutLine(n)])
 =============================================================================
